@@ -250,3 +250,42 @@ package shape
 //@   assert [nested-x] val(fld(coarse, 1)) == anc(val(fld(fine, 1)), b - a)
 //@   assert [nested-y] val(fld(coarse, 2)) == anc(val(fld(fine, 2)), b - a)
 //@ end
+
+//@ -- C09: the voxels of one point at all zooms are nested - the point lookup at a coarser zoom equals the zoom-out of
+//@ -- the lookup at any finer zoom, on each axis independently (vertical: IEEE-exact kernel; horizontal: ideal reals).
+//@ -- alt = 2^25 itself is excluded: its index 2^v does not exist at zoom v (the zoom change rejects it).
+//@ lemma C09_point_voxels_are_nested_vertically
+//@   props C09
+//@   var alt real
+//@   var a int
+//@   var b int
+//@   split b 0..35
+//@   split a 0..b
+//@   quickstride 3
+//@   assume a <= b && 0.0 - 33554432.0 <= alt && alt < 33554432.0 && (alt == 0.0 || abs(alt) >= 1e-290)
+//@   call fine := getVerticalTileIdOnAltitude(alt, b)
+//@   call coarse := getVerticalTileIdOnAltitude(alt, a)
+//@   call out := integrate:VerticalZoom(b, val(fld(fine, 1)), a)
+//@   assert [fine-index-exists] vidx(val(fld(fine, 1)), b)
+//@   assert [nested] len(out) == 1 && out[0] == coarse
+//@ end
+
+//@ lemma C09_point_voxels_are_nested_horizontally
+//@   props C09
+//@   float ideal
+//@   var lon real
+//@   var lat real
+//@   var a int
+//@   var b int
+//@   split b 0..35
+//@   split a 0..b
+//@   quickstride 3
+//@   assume a <= b && 0.0 - 180.0 <= lon && lon <= 180.0 && abs(lat) <= 85.0511287798
+//@   assume abs(asinh(tan(lat * deg2rad))) <= pi
+//@   call fine := getHorizontalTileIdOnPoint(lon, lat, b)
+//@   call coarse := getHorizontalTileIdOnPoint(lon, lat, a)
+//@   -- the southern edge of the grid (row index 2^h) is not a row of the grid
+//@   assume val(fld(fine, 2)) < pow2(b)
+//@   call out := integrate:HorizontalZoom(b, val(fld(fine, 1)), val(fld(fine, 2)), a)
+//@   assert [nested] len(out) == 1 && fld(out[0], 0) == fld(coarse, 0) && val(fld(out[0], 1)) == val(fld(coarse, 1)) && val(fld(out[0], 2)) == val(fld(coarse, 2))
+//@ end
